@@ -167,6 +167,9 @@ type result struct {
 
 func main() {
 	runtime.GOMAXPROCS(1) // one execution at a time: the pool is process-global
+	if os.Args[1] == "replay" {
+		os.Exit(replay(os.Args[2]))
+	}
 	tier := os.Args[1]
 	out := os.Args[2]
 	shard, nshards := 0, 1
@@ -225,30 +228,7 @@ func main() {
 		}
 	}
 	res.ShimActive = len(verifsync.Pools) > 0
-	type scen struct {
-		name   string
-		bodies []int
-		bounds []int
-	}
-	scens := []scen{
-		{"2 demuxers + muxer", []int{0, 1, 2}, []int{2, 1}},
-		{"2 demuxers (big payloads)", []int{3, 0}, []int{2, 2}},
-		{"demuxer data + demuxer packets", []int{1, 4}, []int{2, 1}},
-		{"full PES headers + descriptor zoo", []int{5, 6}, []int{2, 1}},
-		{"adaptation-field variety (packets + data)", []int{7, 8}, []int{2, 1}},
-		{"split section headers + descriptor zoo", []int{9, 6}, []int{1, 1}},
-	}
-	if tier == "thorough" {
-		scens = []scen{
-			{"2 demuxers + muxer", []int{0, 1, 2}, []int{2, 2}},
-			{"2 demuxers (big payloads)", []int{3, 0}, []int{3, 2}},
-			{"demuxer data + demuxer packets", []int{1, 4}, []int{3, 2}},
-			{"3 demuxers", []int{0, 1, 3}, []int{2, 1}},
-			{"full PES headers + descriptor zoo", []int{5, 6}, []int{3, 2}},
-			{"adaptation-field variety (packets + data)", []int{7, 8}, []int{3, 2}},
-			{"split section headers + descriptor zoo", []int{9, 6}, []int{3, 1}},
-		}
-	}
+	scens := scenarios(tier)
 	outcomes := map[string]bool{}
 	for _, sc := range scens {
 		var bodies []c16body.Body
@@ -301,4 +281,93 @@ func main() {
 	b, _ := json.MarshalIndent(res, "", " ")
 	os.WriteFile(out, b, 0o644)
 	fmt.Printf("c16 sched shard %d/%d: %d executions, %d points, shim_active=%v, violations=%d\n", shard, nshards, res.Executions, res.Points, res.ShimActive, len(res.Violations))
+}
+
+type scen struct {
+	name   string
+	bodies []int
+	bounds []int
+}
+
+func scenarios(tier string) []scen {
+	if tier == "thorough" {
+		return []scen{
+			{"2 demuxers + muxer", []int{0, 1, 2}, []int{2, 2}},
+			{"2 demuxers (big payloads)", []int{3, 0}, []int{3, 2}},
+			{"demuxer data + demuxer packets", []int{1, 4}, []int{3, 2}},
+			{"3 demuxers", []int{0, 1, 3}, []int{2, 1}},
+			{"full PES headers + descriptor zoo", []int{5, 6}, []int{3, 2}},
+			{"adaptation-field variety (packets + data)", []int{7, 8}, []int{3, 2}},
+			{"split section headers + descriptor zoo", []int{9, 6}, []int{3, 1}},
+		}
+	}
+	return []scen{
+		{"2 demuxers + muxer", []int{0, 1, 2}, []int{2, 1}},
+		{"2 demuxers (big payloads)", []int{3, 0}, []int{2, 2}},
+		{"demuxer data + demuxer packets", []int{1, 4}, []int{2, 1}},
+		{"full PES headers + descriptor zoo", []int{5, 6}, []int{2, 1}},
+		{"adaptation-field variety (packets + data)", []int{7, 8}, []int{2, 1}},
+		{"split section headers + descriptor zoo", []int{9, 6}, []int{1, 1}},
+	}
+}
+
+// replay re-executes one recorded schedule (scenario name + choice list) without the explorer.
+func replay(path string) int {
+	b, err := os.ReadFile(path)
+	if err != nil {
+		fmt.Println(err)
+		return 2
+	}
+	var doc struct {
+		Detail struct {
+			Scenario string `json:"scenario"`
+			Choices  []int  `json:"choices"`
+			Message  string `json:"message"`
+		} `json:"detail"`
+	}
+	if err := json.Unmarshal(b, &doc); err != nil {
+		fmt.Println(err)
+		return 2
+	}
+	seed, _ := strconv.ParseInt(os.Getenv("VERIF_SEED"), 10, 64)
+	all := c16body.Bodies(seed)
+	installHooks()
+	for _, sc := range append(scenarios("quick"), scenarios("thorough")...) {
+		if sc.name != doc.Detail.Scenario {
+			continue
+		}
+		var bodies []c16body.Body
+		for _, i := range sc.bodies {
+			bodies = append(bodies, all[i])
+		}
+		solo := make([][]string, len(bodies))
+		for i, bd := range bodies {
+			for _, p := range verifsync.Pools {
+				p.Reset()
+			}
+			solo[i], _ = bd.Run()
+		}
+		for _, p := range verifsync.Pools {
+			p.Reset()
+		}
+		s := &sched{env: mc.NewEnv(doc.Detail.Choices)}
+		active = s
+		results, problems := s.run(bodies)
+		active = nil
+		bad := s.problem != ""
+		fmt.Printf("scenario %q, %d choices replayed; pool problem: %q\n", sc.name, len(doc.Detail.Choices), s.problem)
+		for i := range bodies {
+			same := strings.Join(results[i], "|") == strings.Join(solo[i], "|")
+			fmt.Printf("  %s: %d results, equal to solo run: %v, immutability problem: %q\n", bodies[i].Name, len(results[i]), same, problems[i])
+			bad = bad || !same || problems[i] != ""
+		}
+		if bad {
+			fmt.Println("REPLAY reproduces:", doc.Detail.Message)
+			return 1
+		}
+		fmt.Println("REPLAY: no violation observed")
+		return 0
+	}
+	fmt.Println("unknown scenario", doc.Detail.Scenario)
+	return 2
 }
